@@ -197,4 +197,25 @@ CHECKS = {
                      'definitions whose id is not registered or whose Go type cannot hold the value are skipped and counted (they are reported by C13)',
                      'not wire-used and excluded: future_salts/future_salt, msg_copy/message, destroy_session*, rpc_drop_answer, get_future_salts, ping_delay_disconnect, http_wait'],
     ),
+    'C15': dict(
+        pkg='./c15', test='TestC15', level='exploration',
+        quick=dict(shards=12, checks=2500),
+        thorough=dict(shards=16, checks=150000, budget_s=3300,
+                      fuzz=[dict(target='FuzzDecodeUnknown', time='120s', wall=600), dict(target='FuzzDecodeNamed', time='120s', wall=600)]),
+        env={'VERIF_SHARD_AS': str(4 << 30)},
+        inflight=True,
+        level_text=('Structure-aware mutation of valid encodings of every registered constructor (truncation to any prefix, aligned words replaced by registered/enum/'
+                    'special ids and boundary integers, vector counts and length bytes, splices, containers with hostile counts/sizes, gzip_packed with valid, truncated, '
+                    'nested and garbage streams) decoded as unknown object (with/without matching or mismatching vector hints) and into named types; every call must '
+                    'return a value or an error, allocate <= 64*len+4 MiB (1 GiB with gzip) and terminate. Workers run under a 4 GiB address-space limit with the input '
+                    'flushed to disk before each call, so an unrecoverable runtime abort is attributed to its input. Thorough adds two native fuzz targets.'),
+        technique='structure-aware mutation fuzzing driven by rapid + exhaustive prefix truncation per constructor + native coverage-guided fuzzing (thorough)',
+        rule=('case = (bytes, target: unknown object | named Go type, vector hints). Bytes come from valid encodings built by the C01 generator with 0..3 mutations, from '
+              'hand-built containers / gzip_packed objects, or are byte soup. Non-trivial: at least one mutation or hostile construction was applied; distinct by hash of (bytes,target,hints).'),
+        must_hit=['mut:truncate', 'mut:replace-word', 'mut:replace-constructor-id', 'mut:vector-count', 'mut:length-byte', 'mut:splice', 'mut:append', 'mut:container-counts-sizes',
+                  'mut:gzip-valid', 'mut:gzip-truncated-stream', 'mut:gzip-garbage', 'mut:gzip-nested', 'mut:byte-soup', 'target:unknown-no-hints', 'target:unknown-with-hints',
+                  'target:vector-with-hints', 'target:named-seed-type', 'target:named-other-type', 'seed:mtproto-object', 'seed:int128/256', 'outcome:decoded', 'outcome:refused-with-error'],
+        assumptions=['hints are slice types (what generated methods pass)', 'allocation is measured with runtime/metrics /gc/heap/allocs:bytes around the call',
+                     'a decode call still running after 30 s whose goroutine dump shows decoder frames is a hang (no case comes near: typical calls take microseconds)'],
+    ),
 }
